@@ -7,12 +7,12 @@
    Kind = "multi" (Independent / Correlated: every sample carries all objectives) or "list" (per-objective model list).   *)
 EXTENDS VOArith, TLC
 CONSTANTS Kind, M, NS, MaxLen, MinCond
-VARIABLES held, cond, built, op
-vars == <<held, cond, built, op>>
+VARIABLES held, cond, built, op, trained
+vars == <<held, cond, built, op, trained>>
 Obj == 1..M
 Empty == [k \in Obj |-> <<>>]
 Total(h) == LET RECURSIVE F(_)  F(k) == IF k = 0 THEN 0 ELSE Len(h[k]) + F(k-1) IN F(M)
-Init == held = Empty /\ cond = Empty /\ built = FALSE /\ op = [name |-> "init", ids |-> <<>>, objs |-> <<>>, n |-> 0]
+Init == trained = FALSE /\ held = Empty /\ cond = Empty /\ built = FALSE /\ op = [name |-> "init", ids |-> <<>>, objs |-> <<>>, n |-> 0]
 
 RECURSIVE AddTo(_,_,_)
 AddTo(h, ids, objs) == IF ids = <<>> THEN h ELSE AddTo([h EXCEPT ![Head(objs)] = Append(@, Head(ids))], Tail(ids), Tail(objs))
@@ -27,13 +27,18 @@ DoAdd ==
            /\ Total(held) + Len(b) <= MaxLen
            /\ held' = AddTo(held, b, o)
            /\ op' = [name |-> "add", ids |-> b, objs |-> o, n |-> IF \A i \in 1..Len(b) : o[i] = o[1] THEN 1 ELSE 0]   \* n = 1: may be given as a single int
-  /\ UNCHANGED <<cond, built>>
+  /\ UNCHANGED <<cond, built, trained>>
 DoUpdate == /\ \A k \in Obj : Len(held[k]) >= MinCond \/ Kind = "list" \/ MinCond = 0
-            /\ cond' = held /\ built' = TRUE /\ op' = [name |-> "update", ids |-> <<>>, objs |-> <<>>, n |-> 0] /\ UNCHANGED held
-DoClear  == /\ held' = Empty /\ op' = [name |-> "clear", ids |-> <<>>, objs |-> <<>>, n |-> 0] /\ UNCHANGED <<cond, built>>
+            /\ cond' = held /\ built' = TRUE /\ op' = [name |-> "update", ids |-> <<>>, objs |-> <<>>, n |-> 0] /\ UNCHANGED <<held, trained>>
+DoClear  == /\ held' = Empty /\ op' = [name |-> "clear", ids |-> <<>>, objs |-> <<>>, n |-> 0] /\ UNCHANGED <<cond, built, trained>>
 DoPredict == /\ built /\ \E n \in {1, 2, 5} : op' = [name |-> "predict", ids |-> <<>>, objs |-> <<>>, n |-> n]
-             /\ UNCHANGED <<held, cond, built>>
-Next == DoAdd \/ DoUpdate \/ DoClear \/ DoPredict
+             /\ UNCHANGED <<held, cond, built, trained>>
+\* train(): the hyper-parameters are re-fitted on the data the GP is conditioned on; WHAT it is conditioned on does not change, and the
+\* next prediction must be the posterior under the NEW kernel (no stale cache).  At most once per behaviour, with >= 2 samples per objective.
+DoTrain == /\ built /\ ~trained /\ \A k \in Obj : Len(cond[k]) >= 2
+           /\ trained' = TRUE /\ op' = [name |-> "train", ids |-> <<>>, objs |-> <<>>, n |-> 0]
+           /\ UNCHANGED <<held, cond, built>>
+Next == DoAdd \/ DoUpdate \/ DoClear \/ DoPredict \/ DoTrain
 Spec == Init /\ [][Next]_vars
 
 \* theorems of the data flow
@@ -42,5 +47,5 @@ UpToDateAfterUpdate == op.name = "update" => cond = held
 ClearThenUpdateForgets == [][(op.name = "clear" /\ op'.name = "update") => cond' = Empty]_vars
 ObjLocal == [][(Kind = "list" /\ op'.name = "add") => \A k \in Obj : (k \notin SeqToSet(op'.objs)) => held'[k] = held[k]]_vars
 BagOf(s) == [i \in 1..NS |-> Cardinality({ j \in 1..Len(s) : s[j] = i })]
-View == <<[k \in Obj |-> BagOf(held[k])], [k \in Obj |-> BagOf(cond[k])], built, op.name>>
+View == <<[k \in Obj |-> BagOf(held[k])], [k \in Obj |-> BagOf(cond[k])], built, op.name, trained>>
 =============================================================================
